@@ -407,7 +407,7 @@ func c08Facts() (string, error) {
 	}
 	var b strings.Builder
 	b.WriteString("-- GENERATED by ./check from kernel/sync/spinlock_amd64.s and spinlock.go (TestVerifFactsC08); do not edit.\n")
-	b.WriteString("import Firefly.Model.SpinIsa\nnamespace Firefly.Gen.C08\nopen Firefly.Spin\n\n")
+	b.WriteString("import Firefly.Model.SpinIsa\nimport Firefly.Model.Locked\nnamespace Firefly.Gen.C08\nopen Firefly.Spin\n\n")
 	fmt.Fprintf(&b, "/-- TEXT ·archAcquireSpinlock(SB), frame %s -/\ndef acquireAsm : List Instr := [\n", frame)
 	for i, l := range lean {
 		sep := ","
@@ -430,6 +430,11 @@ func c08Facts() (string, error) {
 	for _, m := range [][2]string{{"Acquire", "acquireGo"}, {"TryToAcquire", "tryGo"}, {"Release", "releaseGo"}} {
 		fmt.Fprintf(&b, "/-- func (l *Spinlock) %s -/\ndef %s : List GoOp := [%s]\n", m[0], m[1], strings.Join(bodies[m[0]], ", "))
 	}
+	clients, err := c08Clients(repo)
+	if err != nil {
+		return "", err
+	}
+	b.WriteString("\n" + clients)
 	b.WriteString("\nend Firefly.Gen.C08\n")
 	return b.String(), nil
 }
